@@ -161,12 +161,12 @@ def mkCnf (n : Nat) (cs : List PVal) : Outcome Arr := mkCnfRec n n cs
 /-! ### `to_dnf` (explicit stack; the HEAD of the list is the top of the stack) -/
 
 /-- the `while let Some((node, go_low)) = stack.pop()` loop; one unit of fuel per iteration -/
-def dnfLoop (A : Arr) : Nat → List (Nat × Option Bool) → PVal → Array PVal → Outcome (List PVal)
-  | _, [], _, res => .ok res.toList
+def dnfLoop (A : Arr) : Nat → List (Nat × Option Bool) → PVal → List PVal → Outcome (List PVal)
+  | _, [], _, res => .ok res
   | 0, _ :: _, _, _ => .panic "fuel"
   | fuel + 1, (node, phase) :: stk, path, res =>
     if node = 0 then dnfLoop A fuel stk path res
-    else if node = 1 then dnfLoop A fuel stk path (res.push path)
+    else if node = 1 then dnfLoop A fuel stk path (res ++ [path])
     else
       let nd := nodeAt A node
       match phase with
@@ -180,20 +180,20 @@ def dnfFuel (n : Nat) : Nat := 4 * 2 ^ n
 
 /-- `Bdd::to_dnf` -/
 def toDnf (A : Arr) : Outcome (List PVal) :=
-  dnfLoop A (dnfFuel (numVars A)) [(root A, some true)] [] #[]
+  dnfLoop A (dnfFuel (numVars A)) [(root A, some true)] [] []
 
 /-! ### `to_cnf` (recursive in the Rust code; fuel = recursion depth) -/
 
 /-- `build_recursive(bdd, path, node, results)`; returns the mutated `path` and `results`;
     `none` = the recursion is deeper than the fuel (impossible on a valid diagram with fuel `num_vars + 1`) -/
-def cnfRec (A : Arr) : Nat → Nat → PVal → Array PVal → Option (PVal × Array PVal)
+def cnfRec (A : Arr) : Nat → Nat → PVal → List PVal → Option (PVal × List PVal)
   | 0, _, _, _ => none
   | fuel + 1, node, path, res =>
-    if node = 0 then some (path, res.push path)
+    if node = 0 then some (path, res ++ [path])
     else if node = 1 then some (path, res)
     else
       let nd := nodeAt A node
-      let afterLow : Option (PVal × Array PVal) :=
+      let afterLow : Option (PVal × List PVal) :=
         if nd.low ≠ 1 then
           (cnfRec A fuel nd.low (path.set nd.var true) res).map fun r => (pvUnset r.1 nd.var, r.2)
         else some (path, res)
@@ -206,8 +206,8 @@ def cnfRec (A : Arr) : Nat → Nat → PVal → Array PVal → Option (PVal × A
 
 /-- `Bdd::to_cnf` -/
 def toCnf (A : Arr) : Outcome (List PVal) :=
-  match cnfRec A (numVars A + 2) (root A) [] #[] with
-  | some r => .ok r.2.toList
+  match cnfRec A (numVars A + 2) (root A) [] [] with
+  | some r => .ok r.2
   | none => .panic "fuel"
 
 /-! ### `to_optimized_dnf` -/
@@ -249,39 +249,48 @@ def bestBranch (bdd : Arr) (support : List Nat) (s0 : Nat) : Nat × Nat :=
     let size := (varRestrict bdd var true).size + (varRestrict bdd var false).size
     if size < best.2 then (var, size) else best) (s0, usizeMax)
 
+/-- lines 250-275 of `_rec`: if some universal projection is non-empty, emit the clauses of the largest
+    "common core" first (`rec` is the recursive call) and continue with what the core does not cover, minus
+    the variables it no longer needs; otherwise continue with `bdd` itself.
+    Returns `partial_clause`, `results` and the shadowing `bdd` of line 251. -/
+def optAfterCore (card : Arr → Nat) (rec : Arr → PVal → List PVal → Outcome (PVal × List PVal))
+    (bdd : Arr) (pc : PVal) (res : List PVal) (support : List Nat) (s0 : Nat) : Outcome (PVal × List PVal × Arr) :=
+  let best := bestCore card bdd support s0
+  if best.2 ≠ 0 then
+    let core := varForAll bdd best.1
+    match rec core pc res with
+    | .ok (pc1, res1) =>
+      let remaining := bddAndNot bdd core
+      if remaining.size = 1 then .panic "assertion failed: !remaining.is_false()"
+      else .ok (pc1, res1, pruneRemaining bdd core remaining (supportSorted core))
+    | .err m => .err m
+    | .panic m => .panic m
+  else .ok (pc, res, bdd)
+
+/-- lines 277-305 of `_rec`: branch on the best variable, `true` first -/
+def optBranch (rec : Arr → PVal → List PVal → Outcome (PVal × List PVal))
+    (rest : Arr) (pc1 : PVal) (res1 : List PVal) (support : List Nat) (s0 : Nat) : Outcome (PVal × List PVal) :=
+  let var := (bestBranch rest support s0).1
+  match rec (varRestrict rest var true) (pc1.set var true) res1 with
+  | .ok (pc2, res2) =>
+    match rec (varRestrict rest var false) (pc2.set var false) res2 with
+    | .ok (pc3, res3) => .ok (pvUnset pc3 var, res3)
+    | e => e
+  | e => e
+
 /-- `_to_optimized_dnf::_rec(bdd, partial_clause, results, interrupt)` with the trivial interrupt;
     `card` is `Bdd::exact_cardinality`; fuel = recursion depth -/
-def optRec (card : Arr → Nat) : Nat → Arr → PVal → Array PVal → Outcome (PVal × Array PVal)
+def optRec (card : Arr → Nat) : Nat → Arr → PVal → List PVal → Outcome (PVal × List PVal)
   | 0, _, _, _ => .panic "fuel"
   | fuel + 1, bdd, pc, res =>
     if bdd.size = 1 then .ok (pc, res)
-    else if bdd.size = 2 then .ok (pc, res.push pc)
+    else if bdd.size = 2 then .ok (pc, res ++ [pc])
     else
-      let support := supportSorted bdd
-      match support with
+      match supportSorted bdd with
       | [] => .panic "assertion failed: !support.is_empty()"
-      | s0 :: _ =>
-        let best := bestCore card bdd support s0
-        let afterCore : Outcome (PVal × Array PVal × Arr) :=
-          if best.2 ≠ 0 then
-            let core := varForAll bdd best.1
-            match optRec card fuel core pc res with
-            | .ok (pc1, res1) =>
-              let remaining := bddAndNot bdd core
-              if remaining.size = 1 then .panic "assertion failed: !remaining.is_false()"
-              else .ok (pc1, res1, pruneRemaining bdd core remaining (supportSorted core))
-            | .err m => .err m
-            | .panic m => .panic m
-          else .ok (pc, res, bdd)
-        match afterCore with
-        | .ok (pc1, res1, rest) =>
-          let var := (bestBranch rest support s0).1
-          match optRec card fuel (varRestrict rest var true) (pc1.set var true) res1 with
-          | .ok (pc2, res2) =>
-            match optRec card fuel (varRestrict rest var false) (pc2.set var false) res2 with
-            | .ok (pc3, res3) => .ok (pvUnset pc3 var, res3)
-            | e => e
-          | e => e
+      | s0 :: tl =>
+        match optAfterCore card (optRec card fuel) bdd pc res (s0 :: tl) s0 with
+        | .ok (pc1, res1, rest) => optBranch (optRec card fuel) rest pc1 res1 (s0 :: tl) s0
         | .err m => .err m
         | .panic m => .panic m
 
@@ -290,8 +299,8 @@ def toOptimizedDnfWith (card : Arr → Nat) (A : Arr) : Outcome (List PVal) :=
   if A.size = 1 then .ok []
   else if A.size = 2 then .ok [[]]
   else
-    match optRec card (numVars A + 2) A [] #[] with
-    | .ok r => .ok r.2.toList
+    match optRec card (numVars A + 2) A [] [] with
+    | .ok r => .ok r.2
     | .err m => .err m
     | .panic m => .panic m
 
